@@ -103,14 +103,14 @@ fn batch_callback(ops: &str) -> (&'static Mutex<Batch>, ffi::DatabaseCallback) {
     )
 }
 
-async fn client_read(ch: &Channel, spec: &str) -> String {
+async fn client_read(ch: &Channel, unit: u8, spec: &str) -> String {
     let t = spec.as_bytes()[0] as char;
     let (s, c) = spec[1..].split_once(',').unwrap();
     let range = match AddressRange::try_from(s.parse().unwrap(), c.parse().unwrap()) {
         Ok(r) => r,
         Err(e) => return format!("ERR:{e:?}"),
     };
-    let param = RequestParam::new(UnitId::new(1), Duration::from_secs(5));
+    let param = RequestParam::new(UnitId::new(unit), Duration::from_secs(5));
     fn ex(e: RequestError) -> String {
         match e {
             RequestError::Exception(x) => format!("E{}", u8::from(x)),
@@ -136,21 +136,24 @@ async fn client_read(ch: &Channel, spec: &str) -> String {
     "ERR:NoConnection(after retries)".into()
 }
 
-fn case(rt: &tokio::runtime::Runtime, ffi_rt: &FfiRuntime, line: &str) -> String {
-    let groups: Vec<&str> = line.split_whitespace().collect();
-    let mut out: Vec<String> = Vec::new();
-    let (init_ops, rest) = match groups.first() {
-        Some(g) if g.starts_with("I:") => (&g[2..], &groups[1..]),
-        _ => ("", &groups[..]),
-    };
+/// One C-ABI server for a batch of cases: case k owns unit id k+1 and therefore its own database, configured
+/// by its own `I:` group inside rodbus_device_map_add_endpoint; one client connection serves all reads.
+fn batch(rt: &tokio::runtime::Runtime, ffi_rt: &FfiRuntime, lines: &[String]) -> Vec<String> {
+    assert!(lines.len() <= 240);
     for _attempt in 0..8 {
-        out.clear();
+        let mut outs: Vec<Vec<String>> = vec![Vec::new(); lines.len()];
         unsafe {
             let map = ffi::rodbus_device_map_create();
-            let (state, cb) = batch_callback(init_ops);
-            let ok = ffi::rodbus_device_map_add_endpoint(map, 1, accepting_write_handler(), cb);
-            assert!(ok);
-            out.extend(state.lock().unwrap().results.clone());
+            for (k, line) in lines.iter().enumerate() {
+                let init_ops = match line.split_whitespace().next() {
+                    Some(g) if g.starts_with("I:") => g[2..].to_string(),
+                    _ => String::new(),
+                };
+                let (state, cb) = batch_callback(&init_ops);
+                let ok = ffi::rodbus_device_map_add_endpoint(map, (k + 1) as u8, accepting_write_handler(), cb);
+                assert!(ok);
+                outs[k].extend(state.lock().unwrap().results.clone());
+            }
             let filter = ffi::rodbus_address_filter_any();
             let port = free_port("127.0.0.1");
             let ip = cstr("127.0.0.1");
@@ -172,54 +175,66 @@ fn case(rt: &tokio::runtime::Runtime, ffi_rt: &FfiRuntime, line: &str) -> String
                 )
             };
             let _ = rt.block_on(channel.enable());
-            for g in rest {
-                if let Some(ops) = g.strip_prefix("T:") {
-                    let (state, cb) = batch_callback(ops);
-                    let rc = ffi::rodbus_server_update_database(server, 1, cb);
-                    if rc != 0 {
-                        out.push(format!("ERR:update_database:{}", param_error_name(rc)));
+            for (k, line) in lines.iter().enumerate() {
+                let unit = (k + 1) as u8;
+                for g in line.split_whitespace() {
+                    if g.starts_with("I:") {
+                        continue;
                     }
-                    out.extend(state.lock().unwrap().results.clone());
-                } else if let Some(spec) = g.strip_prefix("R:") {
-                    out.push(rt.block_on(client_read(&channel, spec)));
-                } else {
-                    out.push(format!("ERR:group {g}"));
+                    if let Some(ops) = g.strip_prefix("T:") {
+                        let (state, cb) = batch_callback(ops);
+                        let rc = ffi::rodbus_server_update_database(server, unit, cb);
+                        if rc != 0 {
+                            outs[k].push(format!("ERR:update_database:{}", param_error_name(rc)));
+                        }
+                        outs[k].extend(state.lock().unwrap().results.clone());
+                    } else if let Some(spec) = g.strip_prefix("R:") {
+                        outs[k].push(rt.block_on(client_read(&channel, unit, spec)));
+                    } else {
+                        outs[k].push(format!("ERR:group {g}"));
+                    }
                 }
             }
             drop(channel);
             ffi::rodbus_server_destroy(server);
-            return out.join(";");
+            return outs.into_iter().map(|o| o.join(";")).collect();
         }
     }
-    "FAIL:bind".into()
+    vec!["FAIL:bind".to_string(); lines.len()]
 }
 
 pub fn main(_args: &[String]) -> i32 {
-    crate::util::quiet_panics();
+    if std::env::var("VERIF_LOUD_PANICS").is_err() {
+        crate::util::quiet_panics();
+    }
     let rt = Arc::new(tokio::runtime::Builder::new_multi_thread().worker_threads(6).enable_all().build().unwrap());
     let ffi_rt = Arc::new(ffi_runtime(4));
-    let lines: Arc<Vec<String>> = Arc::new(crate::util::stdin_lines().collect());
-    let results: Arc<Mutex<Vec<String>>> = Arc::new(Mutex::new(vec![String::new(); lines.len()]));
+    let lines: Vec<String> = crate::util::stdin_lines().collect();
+    let batches: Arc<Vec<Vec<String>>> = Arc::new(lines.chunks(100).map(|c| c.to_vec()).collect());
+    let results: Arc<Mutex<Vec<Vec<String>>>> = Arc::new(Mutex::new(vec![Vec::new(); batches.len()]));
     let next = Arc::new(AtomicUsize::new(0));
     let mut workers = Vec::new();
     for _ in 0..12 {
-        let (rt, ffi_rt, lines, results, next) = (rt.clone(), ffi_rt.clone(), lines.clone(), results.clone(), next.clone());
+        let (rt, ffi_rt, batches, results, next) = (rt.clone(), ffi_rt.clone(), batches.clone(), results.clone(), next.clone());
         workers.push(std::thread::spawn(move || loop {
             let i = next.fetch_add(1, Ordering::SeqCst);
-            if i >= lines.len() {
+            if i >= batches.len() {
                 break;
             }
-            let line = lines[i].clone();
+            let b = batches[i].clone();
+            let n = b.len();
             let (rt2, f2) = (rt.clone(), ffi_rt.clone());
-            let r = std::panic::catch_unwind(std::panic::AssertUnwindSafe(move || case(&rt2, &f2, &line)));
-            results.lock().unwrap()[i] = r.unwrap_or_else(|_| "PANIC".to_string());
+            let r = std::panic::catch_unwind(std::panic::AssertUnwindSafe(move || batch(&rt2, &f2, &b)));
+            results.lock().unwrap()[i] = r.unwrap_or_else(|_| vec!["PANIC".to_string(); n]);
         }));
     }
     for w in workers {
         let _ = w.join();
     }
-    for r in results.lock().unwrap().iter() {
-        println!("{r}");
+    for b in results.lock().unwrap().iter() {
+        for r in b {
+            println!("{r}");
+        }
     }
     0
 }
